@@ -214,8 +214,9 @@ def run(chk):
                 chk.tally("words_with_break")
             if "50" in mf[2:]:
                 chk.tally("words_with_2")
-            ok = (not isinstance(cres, tuple) or cres[0] in ("0", "1")) and not isinstance(c, tuple) and \
-                cres[0] == exp[0] and (exp[1] is None or cres[1] == exp[1]) and not oob
+            if oob:
+                chk.tally("cases_exercising_low_clamp")
+            ok = (not isinstance(c, tuple)) and cres[0] == exp[0] and (exp[1] is None or cres[1] == exp[1])
             if ok:
                 chk.cov["traces_validated_against_impl"] += 1
                 if text is None or len(chk.cov["samples"]) < 3:
@@ -224,12 +225,12 @@ def run(chk):
             total_bad += 1
             replay = dict(kind="hyphenate", table_list=tl, dictionary_text=text, dictionary=name,
                           base_table=bt.read_text(), word=w, model=m, impl=c if not isinstance(c, tuple) else list(c))
-            if oob or (isinstance(c, tuple) and "hyphenateWord" in c[1]):
-                chk.violation("hyphens-underflow", "hyphenateWord indexes hyphens[] below 0 "
-                              "(pattern with a digit before a leading '.'): model oob=%s impl=%s" % (oob, c), replay)
+            if isinstance(c, tuple) and "hyphenateWord" in c[1]:
+                chk.violation("hyphens-out-of-bounds", "hyphenateWord indexes hyphens[] out of bounds: model low-clamp=%s impl=%s"
+                              % (oob, c), replay)
             else:
-                chk.violation("mismatch:" + name, "lou_hyphenate differs from Hyph.hyphenate on %s: impl=%s model=%s"
-                              % (w, c, m), replay)
+                chk.violation("mismatch:" + ("shipped:" + name if text is None else "generated"),
+                              "lou_hyphenate differs from Hyph.hyphenate on %s: impl=%s model=%s" % (w, c, m), replay)
     chk.cov["rule"] = ("words (random / pattern-derived / long, mixed case, embedded space, hyphen, comma, digit) over each "
                        "dictionary's alphabet; dictionaries = shipped *.dic that the library loads + generated ones with "
                        "overlapping patterns, duplicates and dots; distinct = (dictionary, word); non-trivial = at least one "
